@@ -21,7 +21,7 @@ case "$ID" in
   C05) WORLD=radio; RUNS=20000 ;;
   C07) WORLD=reg;   RUNS=20000 ;;
   C10) WORLD=iso;   RUNS=8000 ;;
-  C14) WORLD=adr;   RUNS=3000 ;;
+  C14) WORLD=adr;   RUNS=2000 ;;
   C15) WORLD=plan;  RUNS=8000 ;;
   C16) WORLD=join;  RUNS=10000 ;;
   smoke) WORLD=smoke; RUNS=300 ;;
